@@ -324,6 +324,23 @@ def inline_module(tree, new_names, foreign=None):
         count += changed
         if not changed:
             break
+    # a helper every use of which was expanded is dead code: drop it, so
+    # that nothing is analysed twice (kept when it is still referenced,
+    # here or - by attribute or import - from another module)
+    if count:
+        for nm, fn in list(defs.items()):
+            if nm in _EXTERNAL[0]:
+                continue
+            used = False
+            for n in ast.walk(tree):
+                if n is fn:
+                    continue
+                if isinstance(n, ast.Name) and n.id == nm and not any(
+                        n is x for x in ast.walk(fn)):
+                    used = True
+                    break
+            if not used:
+                tree.body = [st for st in tree.body if st is not fn]
     # imports the expanded handlers rely on
     have = _module_bindings(tree)
     for nm, stmt in _NEED[0].items():
@@ -335,6 +352,7 @@ def inline_module(tree, new_names, foreign=None):
 
 _FOREIGN = [{}]
 _NEED = [{}]
+_EXTERNAL = [set()]
 
 
 def _enclosing_def_name(st, tree):
@@ -461,3 +479,157 @@ def _expand_stmt(st, defs, cms, owner):
         _replace_child(st, call, ast.Name(id=tmp, ctx=ast.Load()))
         return stmts + [asg, st]
     return None
+
+
+# -- namedtuple results read as plain tuples ---------------------------------
+
+def _nt_fields(value):
+    """Field names of ``collections.namedtuple('N', <fields>)``, else None."""
+    if not (isinstance(value, ast.Call) and ast.unparse(value.func) in (
+            'collections.namedtuple', 'namedtuple') and len(value.args) == 2):
+        return None
+    f = value.args[1]
+    if isinstance(f, ast.Constant) and isinstance(f.value, str):
+        return f.value.replace(',', ' ').split()
+    if isinstance(f, (ast.List, ast.Tuple)) and all(
+            isinstance(x, ast.Constant) and isinstance(x.value, str)
+            for x in f.elts):
+        return [x.value for x in f.elts]
+    return None
+
+
+def _func_defs(tree):
+    out = {}
+    for st in tree.body:
+        if isinstance(st, ast.FunctionDef):
+            out.setdefault(st.name, []).append(st)
+    return out
+
+
+def untuple_results(trees, imports):
+    """trees: module name -> tree; imports: module name -> {alias: dotted}.
+
+    A function all of whose returns build the same module-level namedtuple,
+    and all of whose call sites bind the result to a local that is only ever
+    read through its fields, is equivalent to the function returning a plain
+    tuple that the callers unpack.  Both sides are rewritten to that form
+    (``v = f()`` / ``v.a`` becomes ``v__a, v__b = f()`` / ``v__a``), which
+    is the form the reference tree uses.  Returns the number of functions
+    rewritten."""
+    done = 0
+    for mn, tree in trees.items():
+        nts = {}
+        for st in tree.body:
+            if isinstance(st, ast.Assign) and len(st.targets) == 1 and \
+                    isinstance(st.targets[0], ast.Name):
+                fl = _nt_fields(st.value)
+                if fl:
+                    nts[st.targets[0].id] = fl
+        if not nts:
+            continue
+        for fname, defs in _func_defs(tree).items():
+            if len(defs) != 1:
+                continue
+            fn = defs[0]
+            rets = [n for n in _own_walk(fn.body)
+                    if isinstance(n, ast.Return)]
+            if not rets:
+                continue
+            ok = True
+            nt = None
+            for r in rets:
+                v = r.value
+                if not (isinstance(v, ast.Call) and isinstance(
+                        v.func, ast.Name) and v.func.id in nts):
+                    ok = False
+                    break
+                nt = nt or v.func.id
+                fl = nts[v.func.id]
+                if v.func.id != nt or any(
+                        isinstance(a, ast.Starred) for a in v.args) or len(
+                        v.args) + len(v.keywords) != len(fl) or any(
+                        k.arg not in fl[len(v.args):] for k in v.keywords):
+                    ok = False
+                    break
+            if not ok:
+                continue
+            fields = nts[nt]
+            # every call site, in every module
+            sites = []
+            conform = True
+            for mn2, t2 in trees.items():
+                aliases = [a for a, d in imports.get(mn2, {}).items()
+                           if d == mn]
+                direct = [a for a, d in imports.get(mn2, {}).items()
+                          if d == '%s.%s' % (mn, fname)]
+                for holder in ast.walk(t2):
+                    if not isinstance(holder, ast.FunctionDef):
+                        continue
+                    for n in _own_walk(holder.body):
+                        if not isinstance(n, ast.Call):
+                            continue
+                        f_ = n.func
+                        hit = (mn2 == mn and isinstance(f_, ast.Name)
+                               and f_.id == fname) or (
+                            isinstance(f_, ast.Name) and f_.id in direct
+                        ) or (isinstance(f_, ast.Attribute) and isinstance(
+                            f_.value, ast.Name) and f_.value.id in aliases
+                            and f_.attr == fname)
+                        if hit:
+                            sites.append((holder, n))
+            for holder, call in sites:
+                asg = [s for s in _own_walk(holder.body)
+                       if isinstance(s, ast.Assign) and s.value is call]
+                if len(asg) != 1 or len(asg[0].targets) != 1 or not \
+                        isinstance(asg[0].targets[0], ast.Name):
+                    conform = False
+                    break
+                v = asg[0].targets[0].id
+                stores = [x for x in ast.walk(holder) if isinstance(
+                    x, ast.Name) and x.id == v and isinstance(
+                        x.ctx, (ast.Store, ast.Del))]
+                if len(stores) != 1:
+                    conform = False
+                    break
+                for x in ast.walk(holder):
+                    for c in ast.iter_child_nodes(x):
+                        if isinstance(c, ast.Name) and c.id == v and \
+                                isinstance(c.ctx, ast.Load):
+                            if not (isinstance(x, ast.Attribute)
+                                    and x.value is c and x.attr in fields):
+                                conform = False
+                if not conform:
+                    break
+            if not conform or not sites:
+                continue
+            # rewrite the returns ...
+            for r in rets:
+                v = r.value
+                vals = list(v.args)
+                kw = {k.arg: k.value for k in v.keywords}
+                for fld in fields[len(vals):]:
+                    vals.append(kw[fld])
+                r.value = ast.copy_location(
+                    ast.Tuple(elts=vals, ctx=ast.Load()), v)
+            # ... and the callers
+            for holder, call in sites:
+                asg = [s for s in _own_walk(holder.body)
+                       if isinstance(s, ast.Assign) and s.value is call][0]
+                v = asg.targets[0].id
+                asg.targets = [ast.copy_location(ast.Tuple(
+                    elts=[ast.Name(id='%s__%s' % (v, fld), ctx=ast.Store())
+                          for fld in fields], ctx=ast.Store()), asg)]
+
+                class _Proj(ast.NodeTransformer):
+                    def visit_Attribute(self, node):
+                        self.generic_visit(node)
+                        if isinstance(node.value, ast.Name) and \
+                                node.value.id == v and node.attr in fields:
+                            return ast.copy_location(ast.Name(
+                                id='%s__%s' % (v, node.attr),
+                                ctx=node.ctx), node)
+                        return node
+                _Proj().visit(holder)
+                ast.fix_missing_locations(holder)
+            done += 1
+    return done
